@@ -213,6 +213,20 @@ CHECKS = {
         "file system mtime behaviour (hypothesis, derived for a monotone clock).",
    technique="Coq injectivity proof of the key encoding + memo-table invariant over call histories + correspondence on key bytes and hit patterns",
    design="5/C17"),
+ "C10": dict(
+   text="Machine-checked proof (Coq 8.16.1) about an abstract file system and the per-output-file protocol automaton of "
+        "the six CLI tasks (setup unlinks, create, writes, close, append rounds, single last rename) with kill/raise/"
+        "unwind fault semantics: for every protocol word of any length and every fault position and kind the output "
+        "path is absent, old-complete or the complete fault-free result, inputs untouched, partial data only at "
+        "temporary names; restartability; temporary-name arithmetic of setup_task_paths. Tied to the code by the "
+        "translator cli_trace.py (operation traces of the real tasks recorded on every run and accepted by "
+        "vm_compute, model predictions compared with real fault runs, strace cross-check) and a fault-enumeration "
+        "oracle in child processes (raise at op k, raise after op k, os._exit before op k, SIGKILL at random times).",
+   note="Trusted: Coq kernel+vm_compute; translator harness/translators/cli_trace.py and the completeness of its "
+        "wrappers; NOT modelled: rename/unlink atomicity, HDF5 behaviour when killed mid-write, power loss. Assumes the "
+        "output path does not alias an input; split does not remove stale temporary files of a failed earlier run.",
+   technique="Coq invariant proof over protocol traces + trace translator + fault enumeration on the real tasks",
+   design="5/C10"),
 }
 
 def main():
